@@ -240,7 +240,12 @@ theorem guard_applied_everywhere :
        ("Request", "s.db.QueryWithContext"), ("Request", "s.raft.Apply")] ∧
     Gen.StoreGuards.sinks.all (fun s => s.2.2.head? == some "guard:err := p.Check(); err != nil => err") = true ∧
     Gen.StoreGuards.executeHelperSinks = ["s.raft.Apply"] ∧
-    Gen.StoreGuards.pragmaCheckCoversEveryStatement = true := by decide
+    Gen.StoreGuards.pragmaCheckCoversEveryStatement = true ∧
+    -- Check is exactly: nil receiver passes; every statement, unconditionally, through the guard
+    Gen.StoreGuards.pragmaCheckBody =
+      ["if p == nil { return nil }", "for _, stmt := range p.Statements", "return nil"] ∧
+    Gen.StoreGuards.pragmaCheckLoopBody =
+      ["if sql.IsBreakingPragma(stmt.Sql) { return fmt.Errorf(\"disallowed pragma\") }"] := by decide
 
 /-- fact obligation: the model's critical names are the keys of db.BreakingPragmas -/
 theorem critical_names_match_source :
